@@ -676,7 +676,7 @@ def runLimit (c : Json) : Option Json := do
 
 def optNat? (j : Json) (k : String) : Option Nat :=
   match (j.getObjVal? k).toOption with
-  | some (Json.num n) => some n.toFloat.toUInt64.toNat
+  | some (Json.num n) => if n.exponent == 0 then some n.mantissa.toNat else some n.toFloat.toUInt64.toNat   -- exact for integers (u64::MAX included)
   | _ => none
 
 /-- declared sizes `[0, max]` per node kind, as the code computes them (the outer-join bound is the code's, a known finding) -/
